@@ -43,5 +43,44 @@ def hansenOk (H : Mat Itv) (v v0 : Mat Rat) (dx : List Rat) : Bool :=
 /-- the exact Jacobian (flattened, row-major) equals the exact value `dv` of a derivative DAG -/
 def diffEq (v : Mat Dual) (dv : Mat Rat) : Bool := (v.d.map (·.g)).flatten == dv.d
 
+/-! ### is the function defined (no pole) on a box?  guard of the slope checks -/
+
+/-- no node of the DAG has a pole on the box: denominators and bases of negative powers exclude 0
+    (interval evaluation of the node's argument).  `callOk f args`: the same for the applied function `f`. -/
+def definedNodes (dag : Dag) (vals : Array (Mat Itv)) (callOk : Nat → List (Mat Itv) → Bool) : Bool :=
+  dag.toList.all fun n =>
+    match n.k with
+    | .bin "div" _ b => (match vals[b]? with | some v => v.d.all (fun I => !Itv.containsExt I (.fin 0)) | none => false)
+    | .pow a k => if k < 0 then (match vals[a]? with | some v => v.d.all (fun I => !Itv.containsExt I (.fin 0)) | none => false) else true
+    | .apply f as => (match as.mapM (fun i => vals[i]?) with | some args => callOk f args | none => false)
+    | _ => true
+
+/-- functions may only call functions defined before them -/
+def definedFuns : List Dag → Nat → List (Mat Itv) → Bool
+  | [], _, _ => false
+  | funs@(_ :: _), i, args =>
+    -- the table of the functions 0..k-1 is enough for function k
+    let rec go (k : Nat) (fuel : Nat) (args : List (Mat Itv)) : Bool :=
+      match fuel with
+      | 0 => false
+      | fuel + 1 =>
+        match funs[k]? with
+        | none => false
+        | some dag =>
+          match Eval.run Alg.itv (args.flatMap (·.d)) (buildCalls Alg.itv funs) dag with
+          | none => false
+          | some vals => definedNodes dag vals fun j a => if j < k then go j fuel a else false
+    go i (funs.length + 1) args
+
+/-- the function `(funs, main)` has no pole on the box (and its interval evaluation succeeds) -/
+def definedOn (funs : List Dag) (main : Dag) (box : List Itv) : Bool :=
+  match Eval.run Alg.itv box (buildCalls Alg.itv funs) main with
+  | none => false
+  | some vals => definedNodes main vals (definedFuns funs)
+
+/-- the smallest box that contains two rational points -/
+def hullPts (p q : List Rat) : List Itv :=
+  List.zipWith (fun a b => Itv.mk (.fin (if a ≤ b then a else b)) (.fin (if a ≤ b then b else a))) p q
+
 end Deriv
 end Ibex
